@@ -176,6 +176,16 @@ def stepKern (st : St) (cmd : List String) (got : String) : Option (St × Verdic
                 let r := renderCont ca.toEfficient
                 if r == resS then none else some ("L2 toEfficient model = Go representation; model: " ++ r.take 300)
               else none
+          -- a cached cardinality that is known (not the lazy marker) and is not the number of set bits is a WRONG ANSWER of
+          -- getCardinality, not a matter of representation: reported before the literal comparison
+          let stale : Verdict :=
+            match parseContTok resS with
+            | some (.bmp card words) =>
+              let n : Nat := (words.map popcount).sum
+              if card ≥ 0 && card != (n : Int) then some ("cached cardinality of the result = number of set bits (" ++ toString n ++ ")")
+              else none
+            | _ => none
+          let resOk := match resOk with | some m => some m | none => stale
           let resOk := match resOk with | some m => some m | none => l2Exact
           let l2Mut : Verdict :=
             let x : Nat := (args.getD 0 0).toNat
